@@ -501,6 +501,7 @@ class CrashRunner {
 
   std::set<uint64_t> seen_images;
   long images_done = 0;
+  double deadline = 1e18;   // monotonic seconds; exploration of a history stops there (inconclusive for the rest)
 
   void check_image(const FsModel &m, const FsImage &im, size_t t, int opidx, FsModel *unused = nullptr) {
     (void)unused;
@@ -719,6 +720,7 @@ class CrashRunner {
     size_t ev = 0;
     std::set<uint64_t> seen;
     for (size_t t2 : chosen) {
+      if (now_s() > deadline) break;
       while (ev < t2) { nm.apply(rtrace[ev], ev); ev++; }
       for (int kind = 0; kind < 4; kind++) {
         FsImage ni = nm.canonical(kind);
@@ -844,6 +846,7 @@ class CrashRunner {
       FsModel m;
       size_t ev = 0;
       for (size_t t : chosen) {
+        if (now_s() > deadline) { rep->count("history_cut_by_budget"); break; }
         while (ev < t) { m.apply(trace[ev], ev); ev++; }
         int opidx = op_index_at(t - 1);
         if (P.only_maximal) {
@@ -954,6 +957,7 @@ int main(int argc, char **argv) {
     if (!out.empty()) write_file(out + sfmt("/w%d.current.case", g_worker), text);
     Case c = parse_case(text);
     CrashRunner r(&rep, P);
+    r.deadline = t0 + budget + 3;
     std::string prop, msg;
     bool ok = r.run(c, &prop, &msg);
     rep.count("cases");
